@@ -354,6 +354,11 @@ func (g *Gen) Generate() *Program {
 		g.feat("names.reuse")
 		ReuseLocalNames(g.M)
 	}
+	if g.on("names.shadow-outer") && r.Chance(1, 4) {
+		if _, k := ShadowOuterNames(g.M, r, 3); k > 0 {
+			g.feat("names.shadow-outer")
+		}
+	}
 	if g.on("decl.reorder") && r.Chance(1, 2) {
 		g.feat("decl.reorder")
 		ds := g.M.Decls
